@@ -402,6 +402,38 @@ func runC12(c *Ctx) {
 						c.Violation("TYPING two-bodies "+verb[err == nil], fmt.Sprintf("`%s` after a %s `%s`: %s, the documented rules say %s (every body starts from match/matchLength only)", sec.body, firstKind, f, verb[err == nil], verb[sec.ok]),
 							map[string]any{"kind": "compile", "src": src, "want": verb[sec.ok]})
 					}
+					// what was accepted is well typed: both transforms in ONE replacement (in both orders) must
+					// evaluate without a type failure and yield what each yields alone
+					if firstKind == "transform" && sec.ok && err == nil {
+						defs := "set f1 to transform " + f + " end\nset f2 to transform " + sec.body + " end\n"
+						alone := map[string]string{}
+						for _, name := range []string{"f1", "f2"} {
+							if av, aerr, api := compileSafe(defs + "replace all 'a' with " + name); aerr == nil && api == nil {
+								if ms, pi := runSafe(av, "a"); pi == nil && len(ms) == 1 {
+									alone[name] = ms[0].Replacement.GetValueOrDefault("")
+								}
+							}
+						}
+						for _, order := range [][]string{{"f1", "f2"}, {"f2", "f1"}, {"f1", "f2", "f1", "f2"}} {
+							both := defs + "replace all 'a' with " + strings.Join(order, " ")
+							bv, berr, bpi := compileSafe(both)
+							if berr != nil || bpi != nil {
+								c.Violation("TYPING two-transforms rejected", fmt.Sprintf("%q: %v %v", both, berr, bpi), map[string]any{"kind": "compile", "src": both, "want": "accepted"})
+								continue
+							}
+							c.Eval(1)
+							ms, pi := runSafe(bv, "a")
+							want := ""
+							for _, n := range order {
+								want += alone[n]
+							}
+							if pi != nil {
+								c.Violation("ACCEPTED-BUT-FAILS "+firstLine(pi.Msg), fmt.Sprintf("%q is accepted, yet running it fails: %s", both, pi.Msg), map[string]any{"kind": "spans", "src": both, "text": "a", "want": "?"})
+							} else if len(ms) != 1 || ms[0].Replacement.GetValueOrDefault("") != want {
+								c.Violation("TWO-TRANSFORMS value", fmt.Sprintf("%q on \"a\": replacement %q, each transform alone gives %q", both, ms[0].Replacement.GetValueOrDefault(""), want), map[string]any{"kind": "spans", "src": both, "text": "a", "want": want})
+							}
+						}
+					}
 				}
 			}
 		}
